@@ -341,6 +341,9 @@ pub struct QueryCfg {
     pub bias_tags: bool,
     /// bias toward @optional edges (tags / folds / coercions / filters under missing optionals)
     pub bias_optional: bool,
+    /// reuse an existing variable in half of the filters (instead of 1 in 6): the frontend then
+    /// has to intersect the types every use implies
+    pub bias_var_reuse: bool,
 }
 
 impl QueryCfg {
@@ -374,6 +377,7 @@ impl QueryCfg {
             bias_fold_count,
             bias_tags: false,
             bias_optional: false,
+            bias_var_reuse: false,
         }
     }
     pub fn simplest() -> QueryCfg {
@@ -394,6 +398,7 @@ impl QueryCfg {
             bias_fold_count: false,
             bias_tags: false,
             bias_optional: false,
+            bias_var_reuse: false,
         }
     }
 }
@@ -525,7 +530,8 @@ impl<'a> Gen<'a> {
         };
         let is_regex = matches!(op, Op::Regex | Op::NotRegex);
         // Reuse an existing variable sometimes when the types can intersect.
-        if self.t.chance(1, 6) {
+        let reuse = if self.cfg.bias_var_reuse { self.t.chance(1, 2) } else { self.t.chance(1, 6) };
+        if reuse {
             let cands: Vec<usize> = self
                 .vars
                 .iter()
